@@ -112,7 +112,9 @@ def build_class(it, st: ast.ClassDef, fr):
                 if isinstance(a, tuple) and a and a[0] == "field" and a[1].get("compare") is False:
                     nocmp.append(n)
             cv.nocompare = tuple(nocmp)
-        elif name.split(".")[-1] in ("total_ordering", "final", "runtime_checkable", "unique"):
+        elif name.split(".")[-1] == "total_ordering":
+            cv.total_ordering = True          # missing comparisons are derived in Interp.obj_cmp
+        elif name.split(".")[-1] in ("final", "runtime_checkable", "unique"):
             pass
         elif name in ("guppy.struct",):
             # Guppy mode: a @guppy.struct class is constructed field by field in declaration
